@@ -291,11 +291,16 @@ def supplier_owner(case: str):
 # execution on the real library
 
 class _Disp:
-    def __init__(self, states):
+    """disposable double; `delay` = number of loop turns its __aenter__ takes, so that the concurrently entered
+    disposables of one scope complete in an order different from their declaration order"""
+
+    def __init__(self, states, delay=1):
         self.states = states
+        self.delay = delay
 
     async def __aenter__(self):
-        await asyncio.sleep(0)
+        for _ in range(self.delay):
+            await asyncio.sleep(0)
         if not self.states:
             return None
         if len(self.states) == 1:
@@ -378,7 +383,9 @@ def run_real(case: str) -> str:
                     parts = rest.split("/")
                     direct = make(parse_insts(parts[0]))
                     if kind == "A":
-                        disps = [_Disp(make(parse_insts(p))) for p in parts[1:]]
+                        specs = [parse_insts(p) for p in parts[1:]]
+                        disps = [_Disp(make(sp_), delay=1 + (sum(v for _ty, v in sp_) * 7 + 3 * (len(specs) - k)) % 4)
+                                 for k, sp_ in enumerate(specs)]
                         cm = ctx.scope(f"b{b}", *direct, disposables=disps or None)
                         async with cm:
                             done_flag["n"] += 1
